@@ -155,6 +155,9 @@ func main() {
 	runGatedAdapters(f, res, drv, rng)
 	fmt.Fprintf(os.Stderr, "c17: Group adapters (gated members) in %v\n", time.Since(t0).Round(time.Millisecond))
 	t0 = time.Now()
+	runPullLoops(f, res, drv, rng)
+	fmt.Fprintf(os.Stderr, "c17: Group Pull loops in %v\n", time.Since(t0).Round(time.Millisecond))
+	t0 = time.Now()
 	runtime.GOMAXPROCS(4)
 	runAdapters(f, res, drv)
 	fmt.Fprintf(os.Stderr, "c17: Group adapters (model servers) in %v\n", time.Since(t0).Round(time.Millisecond))
@@ -330,6 +333,28 @@ func replay(f lib.Flags) int {
 	var probe struct {
 		Trait string `json:"trait"`
 		Gated bool   `json:"gated"`
+	}
+	var probeLoop struct {
+		PullLoop bool `json:"pull_loop"`
+	}
+	if json.Unmarshal(b, &probeLoop) == nil && probeLoop.PullLoop {
+		var pc pcase
+		if err := json.Unmarshal(b, &pc); err != nil {
+			fmt.Println("replay: input is not a C17 pull-loop case:", string(b))
+			return 2
+		}
+		code := runPullLoop(pc)
+		fmt.Printf("replay %s\n  -> %s\n", pc.line(), code)
+		m := lib.NewMonitor("replay", "")
+		pullLoopMonitor(m, pc, code)
+		for _, v := range m.Violations {
+			fmt.Printf("STILL FAILS %s: %s (expected %s, observed %s)\n", v.Signature, v.What, v.Expected, v.Observed)
+		}
+		if len(m.Violations) > 0 {
+			return 1
+		}
+		fmt.Println("replay: property holds on this input now")
+		return 0
 	}
 	if json.Unmarshal(b, &probe) == nil && probe.Gated {
 		g := gcase{PCancel: -1}
